@@ -1904,6 +1904,19 @@ fn main() {
     let args: Vec<String> = std::env::args().collect();
     let out_path = args.get(1).expect("usage: c17 <ops-file> [--spec file]").clone();
     let mut out = std::io::BufWriter::new(std::fs::File::create(&out_path).unwrap());
+    // Behavioural probe of the real LossyUtf8, one distinguishing input per repaired defect; the driver
+    // selects the port to compare with from it (the judge does not depend on it).
+    {
+        let collect = |b: &[u8]| -> Vec<u8> { LossyUtf8::new(b).take(16).flat_map(|p| p.bytes()).collect() };
+        // final-invalid defect: `ab\xff` -> `ab` (old) / `ab` U+FFFD (repaired); independent of the other defect.
+        // truncated-tail defect: probed with `\xe2` alone (old: nothing, repaired: U+FFFD) because on `ab\xe2` the two
+        // defects interact (only the first repaired: `ab`); `ab\xe2` is recorded as well.
+        let f = collect(b"ab\xff");
+        let t = collect(b"\xe2");
+        let t2 = collect(b"ab\xe2");
+        let bit = |got: &[u8], fixed: &[u8], old: &[u8]| if got == fixed { "1" } else if got == old { "0" } else { "x" };
+        writeln!(out, "probe lossy {} {} {}/{}/{}", bit(&f, "ab\u{fffd}".as_bytes(), b"ab"), bit(&t, "\u{fffd}".as_bytes(), b""), hx(&f), hx(&t), hx(&t2)).unwrap();
+    }
     let mut w = World { langs: load_langs(), highlighter: Highlighter::new(), spec_override: None };
     let mut n = 0usize;
     if args.get(2).map(|s| s == "--spec").unwrap_or(false) {
